@@ -598,7 +598,12 @@ pub async fn run_case(backend: &str, seed: u64, rep: &mut Report, ops_out: &mut 
             let (cpd, ck) = if rng.chance(1, 2) { (CpD::Head(base_after.iter().map(|r| r.bytes.clone()).collect()), "matching-rewound") } else { gen_cp(&mut rng, &cur, &others) };
             let mut rs = gen_recs(&mut rng, &mut clock, 3);
             // half of the patches carry the records the rewind removes (what a client's merged patch does)
-            if rng.chance(1, 2) { let mut carried: Vec<RecD> = cur[base_after.len()..].to_vec(); carried.extend(rs); rs = carried; }
+            // a third carry only the oldest of them (a patch computed before the newer ones were accepted)
+            match rng.below(3) {
+                0 => { let mut carried: Vec<RecD> = cur[base_after.len()..].to_vec(); carried.extend(rs); rs = carried; }
+                1 => { let mut carried: Vec<RecD> = cur[base_after.len()..].iter().take(1).cloned().collect(); carried.extend(rs); rs = carried; }
+                _ => {}
+            }
             let Some(cp) = cpd.real() else { continue };
             let real: Vec<EventRecord> = rs.iter().map(|r| r.real()).collect();
             let mut removed: Vec<EventRecord> = vec![];
